@@ -454,7 +454,7 @@ class InterleavedDataReader(BaseDataReader):
     """ Reads data in a TDMS segment with interleaved data
     """
 
-    def read_data_chunks(self, file, data_objects, num_chunks):
+    def read_data_chunks(self, file, data_objects, num_chunks, chunk_offset=0):
         """ Read multiple data chunks at once
         """
         if len(data_objects) == 0:
@@ -463,13 +463,13 @@ class InterleavedDataReader(BaseDataReader):
             set((o.number_values for o in data_objects))) == 1)
         if not same_length:
             raise ValueError("Cannot read interleaved data with different chunk sizes")
-        return [self._read_interleaved_chunks(file, data_objects, num_chunks)]
+        return [self._read_interleaved_chunks(file, data_objects, num_chunks, chunk_offset)]
 
     def read_channel_data_chunks(self, file, data_objects, channel_path, chunk_offset, stop_chunk):
         """ Read multiple data chunks for a single channel at once
         """
         num_chunks = stop_chunk - chunk_offset
-        all_chunks = self.read_data_chunks(file, data_objects, num_chunks)
+        all_chunks = self.read_data_chunks(file, data_objects, num_chunks, chunk_offset)
         return [data_chunk_to_channel_chunk(chunk, channel_path) for chunk in all_chunks]
 
     def _read_data_chunk(self, file, data_objects, chunk_index):
@@ -477,15 +477,21 @@ class InterleavedDataReader(BaseDataReader):
         """
         raise NotImplementedError("Reading a single chunk is not implemented for interleaved data")
 
-    def _read_interleaved_chunks(self, file, data_objects, num_chunks):
+    def _read_interleaved_chunks(self, file, data_objects, num_chunks, chunk_offset=0):
         """Read interleaved data where all channels have a sized data type and the same length
         """
         total_data_width = sum(o.data_type.size for o in data_objects)
         log.debug("Reading interleaved data all at once. total_data_width: %d", total_data_width)
 
+        number_values = data_objects[0].number_values * num_chunks
+        if self.final_chunk_lengths_override is not None and chunk_offset + num_chunks >= self.num_chunks:
+            # The final chunk is incomplete, don't read past the end of this segment's data
+            number_values -= (
+                data_objects[0].number_values - self.final_chunk_lengths_override.get(data_objects[0].path, 0))
+
         # Read all data into 1 byte unsigned ints first
         combined_data = read_interleaved_segment_bytes(
-            file, total_data_width, data_objects[0].number_values * num_chunks)
+            file, total_data_width, number_values)
 
         # Now get arrays for each channel
         channel_data = {}
